@@ -59,6 +59,14 @@ def _verify_one(args):
                 fname = vecexpr.registry(repo).get(nm)
                 if fname and ("opfython.math.distance." + fname) in repo.functions:
                     out["hash"] = normalized_hash(repo.function("opfython.math.distance." + fname)[0])
+        elif qualname.startswith("axioms:"):
+            from . import vecexpr
+            from specs.metrics import METRICS
+            out["kind"] = "axioms"
+            nm = qualname[7:]
+            obs = vecexpr.verify_axioms(repo, nm, METRICS[nm])
+            if "tri" in METRICS[nm]["axioms"].split() and nm in vecexpr.TRIANGLE_POINTWISE:
+                obs += vecexpr.verify_triangle(repo, nm, METRICS[nm])
         elif qualname.startswith("static:"):
             from .contracts import STATICS
             from .engine import Obligation as _Ob
@@ -111,6 +119,8 @@ def _verify_one(args):
     except Exception as ex:
         out["error"] = ("crash", traceback.format_exc())
     out["seconds"] = round(time.time() - t0, 3)
+    if timeout_ms is not None:
+        out.pop("_obs", None)      # solved here: only the (picklable) records travel back
     return out
 
 
@@ -162,7 +172,19 @@ def run(qualnames, timeout_ms=20000, jobs=None, dump=False):
     results = []
     _ALL = []
     index = []
+    # metric / axiom items do their (solver-assisted) generation and their few obligations in one worker each
+    self_contained = [q for q in qualnames if q.startswith(("metric:", "axioms:"))]
+    done = {}
+    if self_contained:
+        ctx0 = mp.get_context("fork")
+        with ctx0.Pool(min(jobs, len(self_contained))) as pool:
+            for r in pool.map(_verify_one, [(q, timeout_ms or 20000, dump) for q in self_contained], chunksize=1):
+                r.pop("_obs", None)
+                done[r["function"]] = r
     for q in qualnames:
+        if q in done:
+            results.append(done[q])
+            continue
         r = _verify_one((q, None, dump))
         obs = r.pop("_obs", [])
         for ob in obs:
